@@ -1614,6 +1614,8 @@ struct Unit {
     n_extracted: usize,
     range_shim: bool,
     cursor_shim: bool,
+    /// `//@identity-cast T`: after R-TYPE an `E as T` where E already has type T (an unsizing cast to a trait object in the source)
+    identity_casts: Vec<String>,
 }
 
 struct Found {
@@ -2203,6 +2205,27 @@ impl Unit {
             let mut pp = PathPass { table: &self.paths, log: &mut log };
             pp.visit_signature_mut(&mut sig);
             pp.visit_block_mut(&mut block);
+        }
+        if !self.identity_casts.is_empty() {
+            // R-CAST: `E as T` where, after R-TYPE / R-PATH, T is the (shim) type E already has: the source's unsizing cast to a trait
+            // object has nothing left to do
+            struct CastPass<'a> { tys: &'a [String], log: &'a mut Vec<String> }
+            impl<'a> VisitMut for CastPass<'a> {
+                fn visit_expr_mut(&mut self, e: &mut Expr) {
+                    visit_mut::visit_expr_mut(self, e);
+                    let mut new: Option<Expr> = None;
+                    if let Expr::Cast(c) = e {
+                        if self.tys.iter().any(|t| *t == tok(&c.ty)) {
+                            new = Some((*c.expr).clone());
+                        }
+                    }
+                    if let Some(n) = new {
+                        self.log.push("R-CAST identity cast dropped".into());
+                        *e = n;
+                    }
+                }
+            }
+            CastPass { tys: &self.identity_casts, log: &mut log }.visit_block_mut(&mut block);
         }
         // R-WORLD
         if spec.world {
@@ -2828,6 +2851,9 @@ impl Unit {
                     "cursor-shim" => {
                         self.cursor_shim = true;
                     }
+                    "identity-cast" => {
+                        self.identity_casts.push(nospace(rest));
+                    }
                     "range-shim" => {
                         self.range_shim = true;
                     }
@@ -3058,6 +3084,7 @@ fn main() {
         n_extracted: 0,
         range_shim: false,
         cursor_shim: false,
+        identity_casts: vec![],
     };
     u.process(Path::new(&args[3]), 0);
     std::fs::write(&args[4], &u.out).unwrap_or_else(|_| die("cannot write output"));
